@@ -52,6 +52,13 @@ def gen_one(r, i, tier):
     # mixed: original + reload
     im = push(("add", a, R)); ops.append(("tojson", im)); m["mixed"] = len(ops) - 2
     m["pairs"] = pairs
+    # the immutable twins built directly with the public .ed() constructors (keyword / positional
+    # forms, default arguments included), of the state and of its zero: each is what the reader
+    # builds, and building the second does not touch the first
+    z = push(("zero", a))
+    e1 = push(("jsonrt", a, "ed"))
+    e2 = push(("jsonrt", z, "ed"))
+    ops.append(("tojson", e2)); ops.append(("tojson", e1))
     return {"ops": ops, "meta": m}
 
 
